@@ -73,3 +73,22 @@ def im_data(a):
 NS = {'SUMR': SUMR, 'DOT': DOT, 'BRSUM': BRSUM, 'SUMR_BASE': SUMR_BASE, 'SUMR_STEP': SUMR_STEP, 'DOT_BASE': DOT_BASE,
       'DOT_STEP': DOT_STEP, 'DOT_EXT': DOT_EXT, 'BRSUM_BASE': BRSUM_BASE, 'BRSUM_STEP': BRSUM_STEP, 'data': data, 're_data': re_data,
       'im_data': im_data}
+
+
+# twiddle-table DFT partial sums: CTW(X, T, n, k, i) = sum_{j<i} X[j] * T[(j*k) mod n]   (complex, split in re / im)
+CTW_RE = z3.Function('ctw_re', AR, AR, AR, AR, I, I, I, R)
+CTW_IM = z3.Function('ctw_im', AR, AR, AR, AR, I, I, I, R)
+
+
+def CTW_BASE(xr, xi, tr, ti, n, k):
+    return z3.And(CTW_RE(xr, xi, tr, ti, n, k, 0) == 0, CTW_IM(xr, xi, tr, ti, n, k, 0) == 0)
+
+
+def CTW_STEP(xr, xi, tr, ti, n, k, i):
+    w = (i * k) % n
+    return z3.Implies(z3.And(i >= 0, n >= 1, k >= 0), z3.And(
+        CTW_RE(xr, xi, tr, ti, n, k, i + 1) == CTW_RE(xr, xi, tr, ti, n, k, i) + (xr[i] * tr[w] - xi[i] * ti[w]),
+        CTW_IM(xr, xi, tr, ti, n, k, i + 1) == CTW_IM(xr, xi, tr, ti, n, k, i) + (xr[i] * ti[w] + xi[i] * tr[w])))
+
+
+NS.update({'CTW_RE': CTW_RE, 'CTW_IM': CTW_IM, 'CTW_BASE': CTW_BASE, 'CTW_STEP': CTW_STEP})
